@@ -1036,7 +1036,7 @@ func main() {
 		return
 	}
 
-	nBase := ev.Pick(280, 4500)
+	nBase := ev.Pick(280, 15000)
 	if v := os.Getenv("C20_NBASE"); v != "" {
 		nBase, _ = strconv.Atoi(v)
 	}
